@@ -309,6 +309,9 @@ func RunCheck(o CheckOpts) int {
 	for _, a := range E.CS.Assumed {
 		assumptions = append(assumptions, "assumed in a contract file (not proved): "+a)
 	}
+	for n := range E.CS.NonNilIfaces {
+		assumptions = append(assumptions, "assumed (ledger nonnil-stored): a value of interface type "+n+" read from memory is not nil; checked at the stores and single-element appends of functions under contract, assumed for all other writers")
+	}
 	for _, n := range E.CS.NonNil {
 		assumptions = append(assumptions, "assumed non-nil package variable (ledger): "+n)
 	}
